@@ -2,6 +2,7 @@
 package verifself
 
 import (
+	"fmt"
 	"sync"
 
 	"github.com/GuanceCloud/platypus/internal/verifnd"
@@ -120,4 +121,24 @@ func SelfPoolOK() {
 func SelfUnlockedWrite() {
 	verifnd.Freeze()
 	selfCount++
+}
+
+type selfGood int
+
+func (g selfGood) String() string { return fmt.Sprintf("<item %d>", g) } // %d does not consult String
+
+type selfBad int
+
+func (b selfBad) String() string { return fmt.Sprintf("<item %v>", b) } // %v does: unbounded recursion
+
+// SelfFmtVerb must hold: a String method that formats its receiver with %d terminates.
+func SelfFmtVerb() {
+	s := fmt.Sprintf("%v/%s", selfGood(3), selfGood(4))
+	verifnd.Assert(s == "<item 3>/<item 4>", "stringer-used-for-v-and-s")
+	verifnd.Reach("done")
+}
+
+// SelfFmtRecursion must be reported (UNWIND): String formats its own receiver with %v.
+func SelfFmtRecursion() {
+	_ = fmt.Sprintf("%v", selfBad(1))
 }
